@@ -63,8 +63,10 @@ func init() {
 		}
 		o := object.Object(doc)
 		var id *url.URL
-		if raw, ok := doc["id"].(string); ok && B(op, "withid") {
-			if u, err := url.Parse(raw); err == nil {
+		if B(op, "withid") {
+			/* the identifier as the program obtains it (client.FetchUnknown): through the accessor,
+			   which sanitises the string before parsing it */
+			if u, err := o.GetURL("id"); err == nil {
 				id = u
 			}
 		}
